@@ -180,6 +180,10 @@ type ExecutionPayloadHeader struct {
 }
 
 func (s *ExecutionPayloadHeader) View() *ExecutionPayloadHeaderView {
+	// The leaves of the view point at the roots they are built from: use a private copy,
+	// the view must not change when the caller changes its struct afterwards.
+	cp := *s
+	s = &cp
 	ed, err := s.ExtraData.View()
 	if err != nil {
 		panic(err)
